@@ -94,7 +94,7 @@ inline void ledger_reset() {
 }
 
 // KIND: 0 = TR (declares trivially_relocatable, not trivially copyable); 1 = NTR (stores self pointer);
-//       2 = NTR move-only; 3 = NTR with potentially-throwing move (C15/C17 only)
+//       2 = NTR move-only; 3 = NTR with potentially-throwing move (C15/C17 only); 4 = like 3 but with a noexcept copy constructor
 template <int KIND>
 struct Tracked {
   static const bool kIsTR = KIND == 0;
@@ -105,7 +105,7 @@ struct Tracked {
   const Tracked *self;
 
   // ---- helpers
-  static const char *kname() { return KIND == 0 ? "TR" : KIND == 1 ? "NTR" : KIND == 2 ? "NTR_MO" : "NTR_TM"; }
+  static const char *kname() { return KIND == 0 ? "TR" : KIND == 1 ? "NTR" : KIND == 2 ? "NTR_MO" : KIND == 3 ? "NTR_TM" : "NTR_NCTM"; }
   void born(Ev e) {
     if (g_next_serial >= kMaxSerial) harness_fail("serial space exhausted");
     if (g_check_raw_overwrite && !kIsTR) {
@@ -181,16 +181,16 @@ struct Tracked {
     pay = p->pay;
     born(EV_VCTOR);
   }
-  Tracked(const Tracked &o) {
+  Tracked(const Tracked &o) noexcept(KIND == 4) {
     static_assert(KIND != 2, "move-only");
-    fault_point();
+    if (KIND != 4) fault_point();
     o.check_live("read(copy-ctor source)");
     key = o.key;
     pay = o.pay;
     born(EV_CCTOR);
   }
-  Tracked(Tracked &&o) noexcept(KIND != 3) {
-    if (KIND == 3) fault_point();
+  Tracked(Tracked &&o) noexcept(KIND != 3 && KIND != 4) {
+    if (KIND == 3 || KIND == 4) fault_point();
     o.check_live("read(move-ctor source)");
     key = o.key;
     pay = o.pay;
@@ -214,8 +214,8 @@ struct Tracked {
     }
     return *this;
   }
-  Tracked &operator=(Tracked &&o) noexcept(KIND != 3) {
-    if (KIND == 3) fault_point();
+  Tracked &operator=(Tracked &&o) noexcept(KIND != 3 && KIND != 4) {
+    if (KIND == 3 || KIND == 4) fault_point();
     bool ok = check_live("move-assign(dest)");
     o.check_live("read(move-assign source)");
     if (this == &o) {
@@ -269,6 +269,7 @@ typedef Tracked<0> TR;
 typedef Tracked<1> NTR;
 typedef Tracked<2> NTR_MO;
 typedef Tracked<3> NTR_TM;
+typedef Tracked<4> NTR_NCTM;  // noexcept copy, throwing move
 
 // the harness takes ownership of an object the library created (value returned by pop_back_val, node contents)
 template <int K>
